@@ -490,3 +490,99 @@ theorem second_pass_package (n : Node) (c : SpdxPkgNode n) : rtPkg (rtPkg n) = r
   exact packageToNode_congr _ _ rfl hattrs
 
 end Protobom.Spdx
+
+namespace Protobom.Spdx
+open Protobom Gen
+
+/-! ### a second pass over a file node -/
+
+def rtFile (n : Node) : Node := fileToNode (fileOf n)
+
+theorem rtFile_attr (n : Node) (f : String) (k : Kind) (h : (f, k) ∈ Schema.nodeAttrs) :
+    (rtFile n).attr f = some (fileAttr (fileOf n) f k) :=
+  attr_of_schema_map _ _ _ f k h schema_keys_nodup
+
+section
+variable (n : Node)
+
+theorem rtFile_str (f : String) (h : (f, Kind.str) ∈ Schema.nodeAttrs) :
+    Node.str (rtFile n) f = (match fileAttr (fileOf n) f .str with | .str s => s | _ => "") := by
+  simp only [Node.str, Node.strAttr, rtFile_attr n f .str h]
+  cases fileAttr (fileOf n) f .str <;> rfl
+
+theorem rtFile_strs (f : String) (h : (f, Kind.strs) ∈ Schema.nodeAttrs) :
+    Node.strs (rtFile n) f = (match fileAttr (fileOf n) f .strs with | .strs s => s | _ => []) := by
+  simp only [Node.strs, rtFile_attr n f .strs h]
+  cases fileAttr (fileOf n) f .strs <;> rfl
+
+theorem rtFile_imap (f : String) (h : (f, Kind.imap) ∈ Schema.nodeAttrs) :
+    (rtFile n).mapAttr f = (match fileAttr (fileOf n) f .imap with | .imap s => s | _ => []) := by
+  simp only [Node.mapAttr, rtFile_attr n f .imap h]
+  cases fileAttr (fileOf n) f .imap <;> rfl
+
+end
+
+theorem fileAttr_congr (f1 f : File)
+    (h1 : f1.name = f.name) (h2 : f1.licenseInfo = f.licenseInfo) (h3 : f1.licenseConcluded = f.licenseConcluded)
+    (h4 : f1.licenseComments = f.licenseComments) (h5 : f1.copyright = f.copyright) (h6 : f1.comment = f.comment)
+    (h7 : f1.fileTypes = f.fileTypes) (h8 : hashesOfChecksums f1.checksums = hashesOfChecksums f.checksums) :
+    ∀ g k, fileAttr f1 g k = fileAttr f g k := by
+  intro g k
+  simp only [fileAttr, h1, h2, h3, h4, h5, h6, h7, h8]
+
+theorem fileToNode_congr (f1 f : File) (hid : f1.id = f.id) (h : ∀ g k, fileAttr f1 g k = fileAttr f g k) :
+    fileToNode f1 = fileToNode f := by
+  unfold fileToNode
+  rw [hid]
+  congr 1
+  apply List.map_congr_left
+  intro fk _
+  exact h fk.1 fk.2
+
+theorem none_fix (x : String) : fileCopyright (fileCopyright x) = fileCopyright x := by
+  unfold fileCopyright
+  simp only
+  by_cases h : Str.trimSpace x = ""
+  · have : Str.trimSpace "NONE" = "NONE" := by decide
+    simp [h, this]
+  · simp [h, Str.trimSpace_idem]
+
+/-- a file node that came back is a fixpoint of write-then-read (hashes over the shared algorithms) -/
+theorem second_pass_file (n : Node) (hk : ∀ kv ∈ n.hashes, kv.1 ∈ spdxHashes) (hnd : (n.hashes.map (·.1)).Nodup) :
+    rtFile (rtFile n) = rtFile n := by
+  have hName := rtFile_str n "Name" (by simp [Schema.nodeAttrs])
+  have hLi := rtFile_str n "LicenseConcluded" (by simp [Schema.nodeAttrs])
+  have hLc := rtFile_str n "LicenseComments" (by simp [Schema.nodeAttrs])
+  have hCp := rtFile_str n "Copyright" (by simp [Schema.nodeAttrs])
+  have hCm := rtFile_str n "Comment" (by simp [Schema.nodeAttrs])
+  have hFt := rtFile_strs n "FileTypes" (by simp [Schema.nodeAttrs])
+  have hAt := rtFile_strs n "Attribution" (by simp [Schema.nodeAttrs])
+  have hHs : (rtFile n).hashes = _ := rtFile_imap n "Hashes" (by simp [Schema.nodeAttrs])
+  simp only [fileAttr, String.reduceEq, if_false, if_true] at hName hLi hLc hCp hCm hFt hAt hHs
+  have hattrs : ∀ g k, fileAttr (fileOf (rtFile n)) g k = fileAttr (fileOf n) g k := by
+    have f1 : ∀ m : Node, (fileOf m).name = Node.str m "Name" := fun _ => rfl
+    have f2 : ∀ m : Node, (fileOf m).licenseInfo = [] := fun _ => rfl
+    have f3 : ∀ m : Node, (fileOf m).licenseConcluded = Node.str m "LicenseConcluded" := fun _ => rfl
+    have f4 : ∀ m : Node, (fileOf m).licenseComments = Node.str m "LicenseComments" := fun _ => rfl
+    have f5 : ∀ m : Node, (fileOf m).copyright = fileCopyright (Node.str m "Copyright") := fun _ => rfl
+    have f6 : ∀ m : Node, (fileOf m).comment = Node.str m "Comment" := fun _ => rfl
+    have f7 : ∀ m : Node, (fileOf m).fileTypes = Node.strs m "FileTypes" := fun _ => rfl
+    have f8 : ∀ m : Node, (fileOf m).checksums = checksumsOf m := fun _ => rfl
+    apply fileAttr_congr
+    · rw [f1 (rtFile n)]; exact hName
+    · rw [f2, f2]
+    · rw [f3 (rtFile n)]; exact hLi
+    · rw [f4 (rtFile n)]; exact hLc
+    · rw [f5 (rtFile n), hCp, f5 n]; exact none_fix _
+    · rw [f6 (rtFile n)]; exact hCm
+    · rw [f7 (rtFile n)]; exact hFt
+    · rw [f8, f8]
+      rw [f8] at hHs
+      have h1 := hashes_roundtrip n hk hnd
+      have hh : (rtFile n).hashes = sortedByKey n.hashes := by rw [hHs]; exact h1
+      rw [hashes_roundtrip (rtFile n) (by rw [hh]; exact sortedByKey_in _ _ hk)
+        (by rw [hh]; exact sortedByKey_keys_nodup _ hnd), hh, sortedByKey_idem _ hnd, h1]
+  have fid : ∀ m : Node, (fileOf m).id = m.id := fun _ => rfl
+  exact fileToNode_congr _ _ (by rw [fid, fid]; rfl) hattrs
+
+end Protobom.Spdx
